@@ -13,7 +13,7 @@ CHECKS = {
    note="Trusted: TLC, PathSem semantics, Python repr/float round trip. Relative form on non-dyadic doubles is compared with a 1e-9 relative tolerance (rounding not modelled). Zero-length Lines and null arcs excluded as the property says.",
    ref="4 (C01), 3.3"),
  'C03': dict(
-   technique="TLA+ exact lattice algebra (Bezier.tla) model-checked with TLC; every (control vectors, t) case replayed through the real Line/QuadraticBezier/CubicBezier methods with exact == on the dyadic lattice",
+   technique="TLA+ exact lattice algebra (Bezier.tla) model-checked with TLC, degree <= 3 identities proved over unbounded integers with Apalache; every (control vectors, t) case replayed through the real Line/QuadraticBezier/CubicBezier methods with exact == on the dyadic lattice",
    text="TLC checks the polynomial identities (Horner = Bernstein = de Casteljau, end points, basis change round trip, derivative = derivative of the polynomial, reversal) on unisolvent grids (all vectors over {-3,0,1,4} for degree <= 3 x 7..13 parameter values); the same cases, paired into complex control points, go through point, points, poly, derivative(n=1..4), poly2bez, bpoints2bezier, bez2poly of the real classes: bit-for-bit equality for integer control points and t = k/8 (incl. t outside [0,1], scaled by 2^-10 and 2^20), 1e-12 relative for t = k/3 and decimal scales 1e-3/1e6.",
    note="Trusted: TLC, the interpolation argument, and that each evaluated method is straight-line arithmetic branching only on degree/flags (checked from the AST at run time and reported in the evidence). Floating-point rounding itself is absorbed by the tolerance, not modelled.",
    ref="4 (C03), 3.6"),
@@ -98,7 +98,7 @@ CHECKS = {
    note="Trusted: TLC, xml libraries, svgwrite. Paths are identified by == with the pool (absolute d round trip, C01). Order across different groups is not prescribed.",
    ref="4 (C18), 3.12"),
  'C19': dict(
-   technique="TLA+ exact lattice algebra (Bezier.tla, degrees 0..8) and state machines of the root de-duplication loop (Roots.tla) and of the L'Hopital recursion (RatLimit.tla) model-checked with TLC; every case replayed into the real helpers in exact Fraction arithmetic / through a numpy.roots proxy; recorded numpy orders validated by Roots_Trace.tla",
+   technique="TLA+ exact lattice algebra (Bezier.tla, degrees 0..8; degree <= 3 identities also proved over unbounded integers with Apalache) and state machines of the root de-duplication loop (Roots.tla) and of the L'Hopital recursion (RatLimit.tla) model-checked with TLC; every case replayed into the real helpers in exact Fraction arithmetic / through a numpy.roots proxy; recorded numpy orders validated by Roots_Trace.tla",
    text="TLC checks Bernstein = de Casteljau = Horner, the basis-change round trip, derivative = polynomial derivative and the split re-parameterisation on unisolvent grids for degrees 0..8, SimpleOnce/ClusterRepresented/OnePerCluster for every set partition x kind vector of up to 5 (quick) / 6 (thorough) roots, and the correctness of the limit recursion for all integer polynomial pairs of degree <= 2 at four points; each case is replayed: bezier_point, bezier2polynomial, polynomial2bezier, split_bezier, halve_bezier with Fractions (exact equality), polyroots/polyroots01 with numpy.roots returning exactly the model's ordered list, rational_limit on every (f,g,t0); 300/3000 real polynomials with prescribed root sets are validated as traces.",
    note="Trusted: TLC, Python Fractions, the interpolation argument (identities linear in the control points and of degree <= n in t). Closeness of roots is modelled as an equivalence relation; non-transitive chains are not generated.",
    ref="4 (C19), 3.6, 3.7"),
